@@ -165,6 +165,13 @@ def check(ctx, rep):
             cls = v[1]
             okc = isinstance(cls, tuple) and cls[0] == "sub" and cls[2] == ("call", ("name", "len"), (V,), (), None)
             rep.ob("R-INDEX", "maketuple picks the tuple class of the right length", okc, "class chosen by %s" % fmt(cls), where_of(mt))
+            if okc:
+                # the table is only indexed where it has an entry: index < len(table), strictly
+                from .c07 import norm_cmp
+                TABLE, IDX = cls[1], cls[2]
+                facts = [norm_cmp(b.d[0], b.d[1]) for b in p.evs("branch")]
+                inb = any(n and n[0] == IDX and n[1] == "<" and n[2] == ("call", ("name", "len"), (TABLE,), (), None) for n in facts)
+                rep.ob("R-INDEX", "maketuple indexes the class table only within its bounds", inb, "the table is indexed with len(values) on a path that establishes only %s: with exactly len(table) inputs the lookup raises IndexError inside the last input's callback and the output never resolves" % [("%s %s %s" % (fmt(n[0]), n[1], fmt(n[2]))) for n in facts if n], where_of(mt), trace_of(p))
 
     # ---- compositions
     fz = prog.fn("zip:f_zip")
